@@ -23,7 +23,8 @@ var allowed = map[string][]string{
 
 var nameAtoms = []string{"etc", "usr", "lib64", "bin", "a", "b", "x", "portage", "make.conf", "a b", "x'y", `q"r`, `b\s`,
 	"tab\tx", "ü", "中", "%s", "%d%n", "k=v", "-", "#c", "~", ".", "..", ".hidden", ",", ":", "script (dev).tmpl",
-	"70-persistent-net.rules", "'", `"`, `\`, " ", "  sp", "e\\", "?", "[ab]", "{x}", "$$stageroot", "$HOME", "a%20b"}
+	"70-persistent-net.rules", "'", `"`, `\`, " ", "  sp", "e\\", "?", "[ab]", "{x}", "$$stageroot", "$HOME", "a%20b",
+	"voil\xc3\xa0", "\xc3\x85ngstr\xc3\xb6m", "a\xa0b", "x\x85y", "v\vt", "f\ff", "c\rr"}
 
 func genElemToks(r *rng.R) []Tok {
 	var ts []Tok
@@ -366,6 +367,36 @@ func genValueLine(r *rng.R, idx int) Input {
 	name := lit(r.Pick([]string{"/etc/conf", "/dev/node0", "/opt/a"}))
 	opt := lit(kv[0] + "=" + kv[1])
 	fields := []SField{{"", QBare, lit(ty)}, {" ", genStyle(r, name), name}, {genSep(r, false), genStyle(r, opt), opt}}
+	return Input{Kind: "line", Line: B(RenderLine(fields, "")), HasS: true, Fields: toJ(fields)}
+}
+
+// bytes that Unicode-aware or ctype-style white-space tests call "space" although the documented
+// field separators are space and tab only: 0x85 and 0xA0 (inside UTF-8 letters such as "à" = C3 A0,
+// "Å" = C3 85, or alone as Latin-1), \v \f \r.  Ordinary name bytes for the tool.  Every string in
+// every position and style every quick run: name bare / single / double, src= bare, targ= bare, src= quoted.
+var spaceLike = []string{"voil\xc3\xa0.txt", "voil\xc3\xa0", "\xc3\x85ngstr\xc3\xb6m", "a\xa0b", "x\x85", "\x85x", "v\vt",
+	"f\ff", "c\rr", "\xa0", "t\vend\f."}
+
+func genSpaceLikeLine(r *rng.R, idx int) Input {
+	s := spaceLike[(idx/6)%len(spaceLike)]
+	pos := idx % 6
+	var fields []SField
+	switch pos {
+	case 0, 1, 2:
+		name := lit("/home/user/" + s)
+		fields = []SField{{"", QBare, lit(r.Pick([]string{"file", "dir", "tbd", "omit", "symlink"}))}, {" ", pos, name}}
+	case 3:
+		fields = []SField{{"", QBare, lit(r.Pick([]string{"file", "dir", "node"}))}, {" ", QBare, lit("/etc/conf")},
+			{genSep(r, false), QBare, lit("src=/data/" + s)}}
+	case 4:
+		fields = []SField{{"", QBare, lit("symlink")}, {" ", QBare, lit("/etc/link")}, {genSep(r, false), QBare, lit("targ=" + s)}}
+	default:
+		fields = []SField{{"", QBare, lit("file")}, {" ", QBare, lit("/etc/conf")},
+			{genSep(r, false), QSingle + r.Intn(2), lit("src=" + s + "/" + s)}}
+	}
+	if r.Chance(1, 3) && fields[0].Toks[0].C != 'o' { // something after the field in question
+		fields = append(fields, SField{" ", QBare, lit("absent=skip")})
+	}
 	return Input{Kind: "line", Line: B(RenderLine(fields, "")), HasS: true, Fields: toJ(fields)}
 }
 
